@@ -26,6 +26,10 @@ valid documents with a junk / incomplete declaration inserted (the parser's reco
 The symbols the current text has to yield are stated in `lsp.expected_symbol` / `expected_flat_kind` / `is_deprecated` from the front end's
 AST — never through `pydjinni_language_server.util` —: every returned symbol, children included, is compared in name, kind, ranges, detail,
 `deprecated` (absent on fields / items / flags / error codes / parameters: the server lists them without it) and `tags`.
+Which file a declaration / definition / import belongs to is stated by the harness too (`lsp.oracle.file_uri`): an editor buffer is the URI
+its client sent, byte for byte, a disk file is pathlib's spelling — never `TextDocumentPath.as_uri()`, the server's own code (with it the
+expectation followed any re-spelling of the URI there: under the namings `lower-hex` / `minimal-encoding` both sides dropped every declaration
+and agreed on `[]`). So under EVERY naming documentSymbol of a valid text has to list exactly its top-level declarations.
 
 Specification on the implementation's observations (`c18.check` -> Lean `specCheck`): after open/change exactly one publication,
 equal to `diagsOf (front (current text))`; queries answer what a cache-free server would answer from the current text
